@@ -192,6 +192,59 @@ impl<L: LangExt, N: Analysis<L> + 'static> Run<L, N> where N::Data: std::fmt::De
         }
         format!("[{}]", out.join(","))
     }
+    fn rec_expr(&self, t: &Term) -> RecExpr<L> {
+        let Term::Node(op, args) = t;
+        let mut elems = if op == "num" { vec![] } else { vec![SyntaxElem::String(op.clone())] };
+        let mut children = Vec::new();
+        for a in args {
+            match a {
+                Arg::Name(i) => elems.push(SyntaxElem::Slot(slot_of_value(self.names[*i]))),
+                Arg::Child(c) => { children.push(self.rec_expr(c)); elems.push(SyntaxElem::AppliedId(AppliedId::new(Id(0), SlotMap::new()))); }
+                Arg::Num(x) => elems.push(SyntaxElem::String(x.to_string())),
+            }
+        }
+        RecExpr { node: L::from_syntax(&elems).expect("from_syntax"), children }
+    }
+    /// term with every slot labelled by its template name or x<value> (internal slots keep their identity)
+    fn show_rec_exact(&self, re: &RecExpr<L>) -> String {
+        let mut out = Vec::new(); let mut ci = 0;
+        for e in re.node.to_syntax() {
+            match e {
+                SyntaxElem::String(s) => out.push(jstr(&s)),
+                SyntaxElem::Slot(s) => out.push(jstr(&self.name_of(s))),
+                SyntaxElem::AppliedId(_) => { out.push(self.show_rec_exact(&re.children[ci])); ci += 1; }
+            }
+        }
+        format!("[{}]", out.join(","))
+    }
+    #[cfg(not(natdiff_explanations))]
+    fn explain(&mut self, _a: &Term, _b: &Term) -> String { panic!("natdiff: built without explanations") }
+    #[cfg(natdiff_explanations)]
+    fn explain(&mut self, a: &Term, b: &Term) -> String {
+        // C07: the proof DAG returned by explain_equivalence, every equation written out on terms (get_syn_expr): public API only
+        let (ra, rb) = (self.rec_expr(a), self.rec_expr(b));
+        let prf = self.eg.explain_equivalence(ra, rb);
+        let mut index: HashMap<*const ProvenEqRaw, usize> = HashMap::new();
+        let mut nodes: Vec<String> = Vec::new();
+        fn visit<L: LangExt, N: Analysis<L> + 'static>(r: &Run<L, N>, p: &ProvenEq, index: &mut HashMap<*const ProvenEqRaw, usize>, nodes: &mut Vec<String>) -> usize where N::Data: std::fmt::Debug {
+            let key = std::sync::Arc::as_ptr(p);
+            if let Some(k) = index.get(&key) { return *k; }
+            let k = nodes.len(); index.insert(key, k); nodes.push(String::new());
+            let (rule, prem, just): (&str, Vec<usize>, Option<String>) = match p.proof() {
+                Proof::Explicit(ExplicitProof(j)) => ("explicit", vec![], j.clone()),
+                Proof::Reflexivity(_) => ("refl", vec![], None),
+                Proof::Symmetry(SymmetryProof(x)) => ("sym", vec![visit(r, x, index, nodes)], None),
+                Proof::Transitivity(TransitivityProof(x, y)) => { let a = visit(r, x, index, nodes); let b = visit(r, y, index, nodes); ("trans", vec![a, b], None) }
+                Proof::Congruence(CongruenceProof(v)) => ("cong", v.iter().map(|x| visit(r, x, index, nodes)).collect(), None),
+            };
+            let eq = p.equ();
+            nodes[k] = format!("{{\"rule\":{},\"l\":{},\"r\":{},\"prem\":[{}],\"just\":{}}}", jstr(rule), r.show_rec_exact(&r.eg.get_syn_expr(&eq.l)), r.show_rec_exact(&r.eg.get_syn_expr(&eq.r)),
+                prem.iter().map(|x| x.to_string()).collect::<Vec<_>>().join(","), match &just { Some(j) => jstr(j), None => "null".to_string() });
+            k
+        }
+        let root = visit(self, &prf, &mut index, &mut nodes);
+        format!(",\"explain\":{{\"root\":{},\"nodes\":[{}]}}", root, nodes.join(","))
+    }
     fn extract_generic<CF: CostFunction<L, Cost = u64> + Default>(&self, name: &str, h: &AppliedId) -> String {
         let ext = Extractor::<L, CF>::new(&self.eg, CF::default());
         let re = ext.extract(h, &self.eg);
@@ -247,10 +300,11 @@ impl<L: LangExt, N: Analysis<L> + 'static> Run<L, N> where N::Data: std::fmt::De
             let mut vals: Vec<String> = c.m.iter().map(|(_, v)| self.name_of(v)).collect(); vals.sort();
             let mut map: Vec<(String, String)> = c.m.iter().map(|(k, v)| (self.name_of(k), self.name_of(v))).collect(); map.sort();
             let mut hvals: Vec<String> = h.m.iter().map(|(_, v)| self.name_of(v)).collect(); hvals.sort();
-            canon.push(format!("{{\"id\":{},\"idem\":{},\"nslots\":{},\"vals\":[{}],\"map\":[{}],\"hvals\":[{}]}}", c.id.0, c == c2, c.m.len(),
+            let hdata = if self.with_data { format!(",\"hdata\":{}", data_json(format!("{:?}", eg.analysis_data(h.id)))) } else { String::new() };
+            canon.push(format!("{{\"id\":{},\"idem\":{},\"nslots\":{},\"vals\":[{}],\"map\":[{}],\"hvals\":[{}]{}}}", c.id.0, c == c2, c.m.len(),
                 vals.iter().map(|x| jstr(x)).collect::<Vec<_>>().join(","),
                 map.iter().map(|(k, v)| format!("[{},{}]", jstr(k), jstr(v))).collect::<Vec<_>>().join(","),
-                hvals.iter().map(|x| jstr(x)).collect::<Vec<_>>().join(",")));
+                hvals.iter().map(|x| jstr(x)).collect::<Vec<_>>().join(","), hdata));
         }
         s.push_str(&format!(",\"canon\":[{}]", canon.join(",")));
         let rows: Vec<String> = self.handles.iter().map(|(_, a)| format!("[{}]", self.handles.iter().map(|(_, b)| match (a, b) { (Some(a), Some(b)) => eg.eq(a, b).to_string(), _ => "false".to_string() }).collect::<Vec<_>>().join(","))).collect();
@@ -338,7 +392,7 @@ fn run_history_opts<L: LangExt, N: Analysis<L> + Default + 'static>(names: Vec<u
                 "union" => {
                     let mut p = 1; let a = parse_term(&toks, &mut p); let b = parse_term(&toks, &mut p);
                     let (ha, hb) = (r.handle(&a).expect("union of a term without handle"), r.handle(&b).expect("union of a term without handle"));
-                    let ret = r.eg.union(&ha, &hb);
+                    let ret = match line.split('|').nth(1) { Some(j) => r.eg.union_justified(&ha, &hb, Some(j.trim().to_string())), None => r.eg.union(&ha, &hb) };
                     extra = format!(",\"union_ret\":{}", ret);
                 }
                 "readd" => {
@@ -391,6 +445,10 @@ fn run_history_opts<L: LangExt, N: Analysis<L> + Default + 'static>(names: Vec<u
                     }
                     let text = parts.iter().map(|(v, p)| format!("{} == {}", v, p)).collect::<Vec<_>>().join(", ");
                     extra = r.mmatch(&text, &parts);
+                }
+                "explain" => {
+                    let mut p = 1; let a = parse_term(&toks, &mut p); let b = parse_term(&toks, &mut p);
+                    extra = r.explain(&a, &b);
                 }
                 "extract" => {
                     let mut p = 2; let t = parse_term(&toks, &mut p);
@@ -553,7 +611,7 @@ fn parse_map(t: &[&str]) -> SlotMap {
 }
 fn show_map(m: &SlotMap) -> String { m.iter().map(|(k, v)| format!("{}>{}", value_of_slot(k), value_of_slot(v))).collect::<Vec<_>>().join(",") }
 
-#[cfg(slotted_egraphs_verif)]
+#[cfg(all(slotted_egraphs_verif, not(natdiff_explanations)))]
 fn run_uf_case(case: &[String]) -> String {
     // lines: entry <i> <parent> k v k v ... (in id order) | find <i> k v ...
     use slotted_egraphs::verif_hooks::*;
@@ -601,7 +659,7 @@ fn run_group_case(case: &[String]) -> String {
     }
     format!("{{\"case\":{},\"results\":[{}]}}", jstr(head[1]), out.join(","))
 }
-#[cfg(not(slotted_egraphs_verif))]
+#[cfg(any(not(slotted_egraphs_verif), natdiff_explanations))]
 fn run_uf_case(_case: &[String]) -> String { "{\"error\":\"built without --cfg slotted_egraphs_verif\"}".to_string() }
 #[cfg(not(slotted_egraphs_verif))]
 fn run_group_case(_case: &[String]) -> String { "{\"error\":\"built without --cfg slotted_egraphs_verif\"}".to_string() }
